@@ -32,9 +32,14 @@ type cmpLine struct {
 
 type scase struct {
 	Lines []cmpLine `json:"lines"`
+	// Second: a second script run by the same RunT call (batch)
+	Second []cmpLine `json:"second,omitempty"`
 }
 
 func (c scase) String() string {
+	if c.Second != nil {
+		return scase{Lines: c.Lines}.String() + " || " + scase{Lines: c.Second}.String()
+	}
 	var p []string
 	for _, l := range c.Lines {
 		m := "mismatch"
@@ -112,10 +117,10 @@ func build(c scase) (string, bool) {
 
 var runSeq int64
 
-func runOn(root, file string, update bool) *tsh.Result {
+func runOn(root string, files []string, update bool) []*tsh.Result {
 	t := tsh.NewT("goexit", false)
 	p := testscript.Params{
-		Files:         []string{file},
+		Files:         files,
 		UpdateScripts: update,
 		WorkdirRoot:   filepath.Join(root, fmt.Sprintf("work%d", atomic.AddInt64(&runSeq, 1))),
 		Cmds: map[string]func(ts *testscript.TestScript, neg bool, args []string){
@@ -147,10 +152,10 @@ func runOn(root, file string, update bool) *tsh.Result {
 	os.MkdirAll(p.WorkdirRoot, 0o777)
 	defer os.RemoveAll(p.WorkdirRoot)
 	t.RunRoot(func() { testscript.RunT(t, p) })
-	if len(t.Results) != 1 {
+	if len(t.Results) != len(files) {
 		kit.Harness("RunT ran %d subtests: %s", len(t.Results), t.RootFatal)
 	}
-	return t.Results[0]
+	return t.Results
 }
 
 type counters struct{ updated, quoted, unquotable, untouched, reruns int64 }
@@ -164,8 +169,13 @@ func check(root string, c scase, st *counters) string {
 	os.MkdirAll(dir, 0o777)
 	defer os.RemoveAll(dir)
 	file := tsh.WriteScript(dir, "s.txt", text)
+	res := runOn(dir, []string{file}, true)[0]
+	return verify(dir, file, text, c, res, st)
+}
+
+// verify judges one script file after a run with UpdateScripts.
+func verify(dir, file, text string, c scase, res *tsh.Result, st *counters) string {
 	before := txtar.Parse([]byte(text))
-	res := runOn(dir, file, true)
 	afterBytes, err := os.ReadFile(file)
 	if err != nil {
 		return fmt.Sprintf("script file unreadable after the run: %v", err)
@@ -292,7 +302,7 @@ func check(root string, c scase, st *counters) string {
 			}
 		}
 		if simple {
-			res2 := runOn(dir, file, false)
+			res2 := runOn(dir, []string{file}, false)[0]
 			if st != nil {
 				atomic.AddInt64(&st.reruns, 1)
 			}
@@ -311,6 +321,29 @@ func check(root string, c scase, st *counters) string {
 // violClass: the message up to its first quoted or numeric detail, so that the
 // class does not depend on which of several entries was hit first (the
 // implementation walks a map).
+// checkBatch: two scripts run by one RunT call; each file is judged on its own
+// (updates recorded for one script must not reach the other).
+func checkBatch(root string, c1, c2 scase, st *counters) string {
+	t1, ok1 := build(c1)
+	t2, ok2 := build(c2)
+	if !ok1 || !ok2 {
+		return ""
+	}
+	dir := filepath.Join(root, fmt.Sprintf("b%d", atomic.AddInt64(&runSeq, 1)))
+	os.MkdirAll(dir, 0o777)
+	defer os.RemoveAll(dir)
+	f1 := tsh.WriteScript(dir, "one.txt", t1)
+	f2 := tsh.WriteScript(dir, "two.txt", t2)
+	rs := runOn(dir, []string{f1, f2}, true)
+	if v := verify(dir, f1, t1, c1, rs[0], st); v != "" {
+		return "first script of a batch: " + v
+	}
+	if v := verify(dir, f2, t2, c2, rs[1], st); v != "" {
+		return "second script of a batch: " + v
+	}
+	return ""
+}
+
 func violClass(v string) string {
 	f := strings.Fields(v)
 	var out []string
@@ -342,7 +375,13 @@ func realMain() {
 		// itself is a deterministic function of the files a run leaves, so a
 		// violation seen on any run is genuine; the replay retries up to 40 times.
 		for try := 0; try < 40; try++ {
-			if v := check(root, c, nil); v != "" {
+			v := ""
+			if c.Second != nil {
+				v = checkBatch(root, scase{Lines: c.Lines}, scase{Lines: c.Second}, nil)
+			} else {
+				v = check(root, c, nil)
+			}
+			if v != "" {
 				return []kit.V{{Key: "update-wrong script=" + c.String(), What: v, Case: c}}
 			}
 		}
@@ -358,9 +397,9 @@ func realMain() {
 	}
 	var cases []scase
 	for _, a := range lines {
-		cases = append(cases, scase{[]cmpLine{a}})
+		cases = append(cases, scase{Lines: []cmpLine{a}})
 		for _, b := range lines {
-			cases = append(cases, scase{[]cmpLine{a, b}})
+			cases = append(cases, scase{Lines: []cmpLine{a, b}})
 		}
 	}
 	if r.Thorough() {
@@ -375,9 +414,22 @@ func realMain() {
 		for _, a := range red {
 			for _, b := range red {
 				for _, c := range red {
-					cases = append(cases, scase{[]cmpLine{a, b, c}})
+					cases = append(cases, scase{Lines: []cmpLine{a, b, c}})
 				}
 			}
+		}
+	}
+	// batches of two scripts in one RunT call
+	var batchLines []cmpLine
+	for _, k := range []string{"stdout", "file", "neg", "outside"} {
+		for _, ci := range []int{1, 3, 4} {
+			batchLines = append(batchLines, cmpLine{k, ci, false})
+		}
+		batchLines = append(batchLines, cmpLine{k, 1, true})
+	}
+	for _, a := range batchLines {
+		for _, b := range batchLines {
+			cases = append(cases, scase{Lines: []cmpLine{a}, Second: []cmpLine{b}})
 		}
 	}
 	st := &counters{}
@@ -394,6 +446,13 @@ func realMain() {
 					return
 				}
 				c := cases[i]
+				if c.Second != nil {
+					if v := checkBatch(root, scase{Lines: c.Lines}, scase{Lines: c.Second}, st); v != "" {
+						r.Violation("update-wrong script="+c.String(), fmt.Sprintf("scripts [%s]: %s (%s)", c, v, violClass(v)), c)
+					}
+					atomic.AddInt64(&done, 1)
+					continue
+				}
 				if _, ok := build(c); !ok {
 					continue
 				}
